@@ -220,6 +220,7 @@ class Ax:
 
     def __init__(s):
         s.exp, s.log, s.cos, s.sqrt, s.pow = [], [], [], [], []
+        s.sq = []        # arguments of squares: valid NRA lemmas |a| <= |b| => a*a <= b*b are supplied as solver hints (not assumptions)
         s.used = set()
 
     # ---- lifted functions
@@ -270,6 +271,21 @@ class Ax:
         gen = norm(F, inf, v)
         r = ite(ezero, const(1.0), ite(bone, const(1.0), ite(anynan, const(math.nan), ite(bneg, unk, gen))))
         return r
+
+    def xsquare(s, a):
+        s.sq.append(a.v)
+        return mul(a, a)
+
+    def square_hints(s):
+        """valid lemmas of real arithmetic for pairs of squared terms (they only help the nonlinear solver; nothing is assumed)"""
+        out = []
+        sq = _dedup(s.sq)
+        for i, a in enumerate(sq):
+            out.append(a * a >= 0)
+            for b in sq[i + 1:]:
+                for u, v in ((a, b), (b, a)):
+                    out += [z3.Implies(z3.And(-v <= u, u <= v), u * u <= v * v), z3.Implies(z3.And(v <= u, u <= -v), u * u <= v * v)]
+        return out
 
     # ---- ground axioms
     def axioms(s):
@@ -354,7 +370,7 @@ class SymAlg:
     def mul(s, a, b): return mul(a, b)
     def div(s, a, b): return div(a, b)
     def abs(s, a): return xabs(a)
-    def square(s, a): return square(a)
+    def square(s, a): return s.ax.xsquare(a)
     def sqrt(s, a): return s.ax.xsqrt(a)
     def exp(s, a): return s.ax.xexp(a)
     def log(s, a): return s.ax.xlog(a)
